@@ -1137,7 +1137,11 @@ class Evaluator(object):
         if fi.vararg:
             binds[fi.vararg] = ("tuple",) + tuple(pos)
         if fi.kwarg:
-            binds[fi.kwarg] = ("kwargs", tuple(sorted((k, v) for k, v in kwargs.items() if k not in fi.params)))
+            extra = dict((k, v) for k, v in kwargs.items() if k not in fi.params)
+            if "**" in extra and len(extra) == 1:
+                binds[fi.kwarg] = extra["**"]
+            else:
+                binds[fi.kwarg] = ("kwargs", tuple(sorted((("str", k), v) for k, v in extra.items())))
         inner = State()
         inner.locals = binds
         inner.heap = st.heap
@@ -1534,9 +1538,9 @@ _backing_memo = {}
 def property_backing(fi):
     """('field', F) if every return is `self.F`; ('series', S) if every return is `self.S.loc[: self.now]`;
     ('abstract',) if it only raises; else ('complex',)."""
-    k = id(fi.node)
-    if k in _backing_memo:
-        return _backing_memo[k]
+    hit = getattr(fi.node, "_btlint_backing", None)
+    if hit is not None:
+        return hit
     rets = [n for n in ast.walk(fi.node) if isinstance(n, ast.Return)]
     res = ("complex",)
     if not rets:
@@ -1555,7 +1559,7 @@ def property_backing(fi):
                 kinds.add(("complex",))
         if len(kinds) == 1:
             res = kinds.pop()
-    _backing_memo[k] = res
+    fi.node._btlint_backing = res
     return res
 
 
